@@ -354,10 +354,20 @@ impl CursorTracker for CursorTrackerImpl<'_> {
                             lines_back -= 1;
                         }
 
-                        (new_token_offset
-                            + (self.reconstructor.nl_len()
-                                * fmt.newlines_before.saturating_sub(lines_back) as usize)
-                            - self.reconstructor.ws_len(token)) as u32
+                        let kept_breaks = fmt.newlines_before.saturating_sub(lines_back) as usize;
+                        let kept_len = if fmt.is_ignored() {
+                            // The whitespace is emitted verbatim: measure its own line breaks,
+                            // which need not be spelled like the configured line ending.
+                            tok.get_leading_whitespace()
+                                .match_indices('\n')
+                                .take(kept_breaks)
+                                .last()
+                                .map_or(0, |(pos, _)| pos + 1)
+                        } else {
+                            self.reconstructor.nl_len() * kept_breaks
+                        };
+
+                        (new_token_offset + kept_len - self.reconstructor.ws_len(token)) as u32
                     } else {
                         // Either no newlines after cursor before formatting, or no newlines before token now
                         // in either case, the cursor should go onto the same line as the token, but we
